@@ -35,7 +35,7 @@ def cases(seed, tier):
                 cs.append((f'w{k}', f'segpy|{g}|{p}|{s}'))
                 k += 1
     dist['exhaustive_2x2_both_entry_points'] = len(p22)
-    n = 12000 if tier == 'quick' else 1500000
+    n = 12000 if tier == 'quick' else 3000000
     sizes = [(3, 2), (2, 3), (3, 2), (2, 3), (4, 2), (2, 4), (3, 3), (5, 2), (6, 2), (2, 6), (4, 3)]
     for i in range(n):
         S, C = rng.choice(sizes)
